@@ -385,6 +385,25 @@ Section RingProofs.
     (cap <> 0 -> oldest r < cap).
   Proof. intros cap ops. cbv zeta. eapply rel_bounded. apply rel_exec. apply rel_new. Qed.
 
+  (* the indices used by Set and Get are inside the slots: the defaults of [nth] in the model are
+     never what is read *)
+  Lemma rel_indices : forall cap r h k i, rel cap r h -> cur_get k (current r) = Some i -> i < cap.
+  Proof.
+    intros [| c] r h k i; cbn [rel].
+    - intro E. subst r. cbn. discriminate.
+    - intros [El I] Hg. destruct I as [Iold Ient Icur Ind]. rewrite Icur in Hg.
+      destruct (fidx k h) as [j |]; [| discriminate]. rewrite El in Hg.
+      destruct (Nat.ltb_spec j (S c)) as [Hj | Hj]; [| discriminate].
+      inversion Hg. apply slot_lt; lia.
+  Qed.
+
+  Theorem ring_indices_in_range : forall cap ops k i,
+    cur_get k (current (exec (new cap) ops)) = Some i -> i < length (entries (exec (new cap) ops)).
+  Proof.
+    intros cap ops k i H. pose proof (rel_exec cap ops (new cap) [] (rel_new cap)) as R.
+    destruct (rel_bounded cap _ _ R) as [El _]. rewrite El. eapply rel_indices; eassumption.
+  Qed.
+
   Theorem ring_cap0 : forall ops k, exec (new 0) ops = new 0 /\ get (exec (new 0) ops) k = None.
   Proof.
     intros ops k. pose proof (rel_exec 0 ops (new 0) [] (rel_new 0)) as R. cbn [rel] in R.
